@@ -121,7 +121,7 @@ func c15AddCase(out *emit.Out, scenario string, in c15Input) {
 	mode := c15Mode(in.Suite)
 	out.Add(emit.Case{Scenario: scenario + "-handshake", Trivial: false, Input: in, Direct: direct,
 		Observed: map[string]interface{}{"client_datagrams": hsSizes[0], "server_datagrams": hsSizes[1], "ok": hsOK},
-		Coq: fmt.Sprintf("HsCase (%d) %s %s %s %s", in.PMTU, mode, zl(hsSizes[0]), zl(hsSizes[1]), emit.Bool(hsOK[0] && hsOK[1]))})
+		Coq:      fmt.Sprintf("HsCase (%d) %s %s %s %s", in.PMTU, mode, zl(hsSizes[0]), zl(hsSizes[1]), emit.Bool(hsOK[0] && hsOK[1]))})
 	if !(hsOK[0] && hsOK[1]) {
 		return
 	}
@@ -151,7 +151,7 @@ func c15AddCase(out *emit.Out, scenario string, in c15Input) {
 		}
 		out.Add(emit.Case{Scenario: sc, Trivial: false, Input: c15Input{in.PMTU, in.Suite, []int{len(p)}, in.API, in.Dir},
 			Observed: map[string]interface{}{"datagrams": perWrite[i], "received": lens, "intact": intact, "returned": wrote[i], "err": werrs[i]},
-			Coq: fmt.Sprintf("%s (%d) %s %d %s %s %s %d", ctor, in.PMTU, mode, len(p), zl(perWrite[i]), zl(lens), emit.Bool(intact), wrote[i])})
+			Coq:      fmt.Sprintf("%s (%d) %s %d %s %s %s %d", ctor, in.PMTU, mode, len(p), zl(perWrite[i]), zl(lens), emit.Bool(intact), wrote[i])})
 	}
 	extra := len(recvd) - pos
 	if extra != 0 {
